@@ -188,6 +188,11 @@ func oracleC11(r *Result) {
 					"the certificate endpoint serves the certificate that verifies issued assertions", abbreviate(string(rep.Body), 120), t.ID)
 			}
 		case "sso", "callback", "slo", "attrq":
+			if rep.Msg != nil && !rep.Msg.HasIssuer && hi != nil && (rep.Msg.Kind == "Response" || rep.Msg.Kind == "LogoutResponse") {
+				w.probe("issuer_compared_with_entityid")
+				r.violate("C11 issuer-differs-from-entityid", "C11:"+t.Msg.Kind+":issuer-differs-from-served-entityid",
+					"the Issuer of every protocol response equals the entityID served for the same request host", "no Issuer element", t.ID)
+			}
 			if rep.Msg != nil && rep.Msg.HasIssuer && hi != nil {
 				w.probe("issuer_compared_with_entityid")
 				for eid := range hi.entityIDs {
@@ -323,6 +328,10 @@ func (g G) planC11() *Plan {
 			m = g.drawSSO(lab+".sso", &p.World, g.intn(lab+".sp", nsp))
 			if g.chance(lab+".unsigned", 60) {
 				m.Sign = ""
+			}
+			if g.chance(lab+".badform", 15) {
+				// a query the form parser refuses (broken percent escape): the refusal still has to carry the published issuer
+				m.Binding, m.Extra = "redirect", []string{g.pick(lab+".badformv", "x=%zz", "%%", "x=%", "RelayState=%G1")}
 			}
 		case 8:
 			p.Steps = append(p.Steps, Step{K: "mutate", Mut: "rotateKey"})
